@@ -192,16 +192,18 @@ def isIndexAddrOf (f : Func) (a : Nat) : Opnd → Bool
     | none => false
   | _ => false
 
-/-- parameters stored into the array allocated by instruction `a` -/
-def storedParams (f : Func) (a : Nat) : List Instr → Nat → Nat
-  | [], m => m
-  | i :: is, m =>
-    storedParams f a is
+/-- parameters stored into the array allocated by instruction `a` by the first `n` instructions of
+    a block (the guard's block, up to the guard call) -/
+def storedParams (f : Func) (a : Nat) : List Instr → Nat → Nat → Nat
+  | [], _, m => m
+  | _, 0, m => m
+  | i :: is, n + 1, m =>
+    storedParams f a is n
       (match i.op with
        | .store _ addr (.param j) => if isIndexAddrOf f a addr then m ||| (1 <<< j) else m
        | _ => m)
 
-def guardCallOf (f : Func) (gi : Nat) (b n : Nat) (i : Instr) : Option GuardCall :=
+def guardCallOf (f : Func) (gi : Nat) (blk : List Instr) (b n : Nat) (i : Instr) : Option GuardCall :=
   match i.op with
   | .call (.fn g) [arg] =>
     if g == gi then
@@ -215,7 +217,7 @@ def guardCallOf (f : Func) (gi : Nat) (b n : Nat) (i : Instr) : Option GuardCall
             match instrAt f a with
             | some ai =>
               match ai.op with
-              | .alloc _ _ => some { block := b, pos := n, covers := storedParams f a f.instrs 0, alloc := some a }
+              | .alloc _ _ => some { block := b, pos := n, covers := storedParams f a blk n 0, alloc := some a }
               | _ => none
             | none => none
           | _ => none
@@ -224,13 +226,13 @@ def guardCallOf (f : Func) (gi : Nat) (b n : Nat) (i : Instr) : Option GuardCall
     else none
   | _ => none
 
-def guardCallsI (f : Func) (gi b : Nat) : List Instr → Nat → List GuardCall
+def guardCallsI (f : Func) (gi : Nat) (blk : List Instr) (b : Nat) : List Instr → Nat → List GuardCall
   | [], _ => []
-  | i :: is, n => (guardCallOf f gi b n i).toList ++ guardCallsI f gi b is (n + 1)
+  | i :: is, n => (guardCallOf f gi blk b n i).toList ++ guardCallsI f gi blk b is (n + 1)
 
 def guardCallsB (f : Func) (gi : Nat) : List Block → Nat → List GuardCall
   | [], _ => []
-  | bl :: bs, b => guardCallsI f gi b bl.instrs 0 ++ guardCallsB f gi bs (b + 1)
+  | bl :: bs, b => guardCallsI f gi bl.instrs b bl.instrs 0 ++ guardCallsB f gi bs (b + 1)
 
 def paramIdx? (name : Nm) : List Param → Nat → Option Nat
   | [], _ => none
